@@ -17,7 +17,7 @@ package glob
 //     Limits {"",""} means "scan everything" for every caller.
 //
 // Output (stdout, parsed by the harness):
-//   VERIFGLOB seed=.. pairs=.. patterns=.. matched=.. limited=.. fails=.. fails_endsff=..
+//   VERIFGLOB seed=.. pairs=.. patterns=.. matched=.. limited=.. fails=.. fails_endsff=.. ambiguous=..
 //   VERIFGLOB-FAIL caller=<c> class=<ends-ff|other> pattern="…" name="…" limits=[…]
 
 import (
@@ -117,27 +117,39 @@ func vclassChar(s string) (rune, int, bool) {
 	return r, k + n, true
 }
 
-func vmatch(toks []vtok, s string) bool {
+// vmatch: whole reports whether '*' may only stop after whole characters
+// (false: at any byte offset). The documented syntax does not decide between
+// the two readings; pairs on which they differ are not judged.
+func vmatch(toks []vtok, s string, whole bool) bool {
 	if len(toks) == 0 {
 		return s == ""
 	}
 	t := toks[0]
 	switch t.kind {
 	case '*':
-		for k := 0; k <= len(s); k++ {
-			if vmatch(toks[1:], s[k:]) {
+		for k := 0; k <= len(s); {
+			if vmatch(toks[1:], s[k:], whole) {
 				return true
+			}
+			if k == len(s) {
+				break
+			}
+			if whole {
+				_, n := utf8.DecodeRuneInString(s[k:])
+				k += n
+			} else {
+				k++
 			}
 		}
 		return false
 	case 'L':
-		return len(s) > 0 && s[0] == t.b && vmatch(toks[1:], s[1:])
+		return len(s) > 0 && s[0] == t.b && vmatch(toks[1:], s[1:], whole)
 	case '?':
 		if len(s) == 0 {
 			return false
 		}
 		_, n := utf8.DecodeRuneInString(s)
-		return vmatch(toks[1:], s[n:])
+		return vmatch(toks[1:], s[n:], whole)
 	case 'C':
 		if len(s) == 0 {
 			return false
@@ -149,7 +161,7 @@ func vmatch(toks []vtok, s string) bool {
 				in = true
 			}
 		}
-		return in != t.neg && vmatch(toks[1:], s[n:])
+		return in != t.neg && vmatch(toks[1:], s[n:], whole)
 	}
 	return false
 }
@@ -414,7 +426,7 @@ func TestVerifGlob(t *testing.T) {
 	total := venvInt("VERIF_GLOB_PAIRS", 1000000)
 	const workers = 8
 	var mu sync.Mutex
-	var pairs, patterns, matched, limited, fails, failsFF int64
+	var pairs, patterns, matched, limited, fails, failsFF, ambig int64
 	var lines []string
 	var wg sync.WaitGroup
 	for w := 0; w < workers; w++ {
@@ -422,7 +434,7 @@ func TestVerifGlob(t *testing.T) {
 		go func(w int) {
 			defer wg.Done()
 			g := &vgen{r: rand.New(rand.NewSource(seed*7919 + int64(w)*104729 + 3))}
-			var lp, lpat, lm, ll, lf, lff int64
+			var lp, lpat, lm, ll, lf, lff, lamb int64
 			var llines []string
 			nclass := map[string]int{}
 			fail := func(caller, class, p, s string, lim []string) {
@@ -455,13 +467,16 @@ func TestVerifGlob(t *testing.T) {
 				buf = g.names(p, toks, buf[:0])
 				for _, s := range buf {
 					lp++
-					want := vmatch(toks, s)
+					want := vmatch(toks, s, false)
+					ambiguous := want != vmatch(toks, s, true)
 					got, err := Match(p, s)
 					if err != nil {
 						fail("match-error", "other", p, s, nil)
 						continue
 					}
-					if got != want {
+					if ambiguous {
+						lamb++
+					} else if got != want {
 						fail("match", "other", p, s, []string{fmt.Sprint(got), fmt.Sprint(want)})
 						continue
 					}
@@ -504,6 +519,7 @@ func TestVerifGlob(t *testing.T) {
 			limited += ll
 			fails += lf
 			failsFF += lff
+			ambig += lamb
 			lines = append(lines, llines...)
 			mu.Unlock()
 		}(w)
@@ -513,7 +529,7 @@ func TestVerifGlob(t *testing.T) {
 	for _, l := range lines {
 		fmt.Println(l)
 	}
-	fmt.Printf("VERIFGLOB seed=%d pairs=%d patterns=%d matched=%d limited=%d fails=%d fails_endsff=%d\n", seed, pairs, patterns, matched, limited, fails, failsFF)
+	fmt.Printf("VERIFGLOB seed=%d pairs=%d patterns=%d matched=%d limited=%d fails=%d fails_endsff=%d ambiguous=%d\n", seed, pairs, patterns, matched, limited, fails, failsFF, ambig)
 	if fails > 0 {
 		t.Fail()
 	}
